@@ -241,6 +241,13 @@ impl VersionManager {
         #[cfg(risinglight_verif)]
         crate::verif::point_sync("persist.tmp.rename", &manifest_path.to_string_lossy());
         tokio::fs::rename(&temp_manifest_path, &manifest_path).await?;
+        // Make the rename durable before anything is appended to the renamed file: otherwise a
+        // crash could bring back the old manifest while every later (fsynced) append went to a
+        // file that is then named `manifest.tmp.json` again and gets truncated at the next boot.
+        tokio::fs::File::open(manifest_dir_path)
+            .await?
+            .sync_all()
+            .await?;
         #[cfg(risinglight_verif)]
         crate::verif::point_sync("persist.tmp.renamed", &manifest_path.to_string_lossy());
         manifest.reopen(&manifest_path).await?;
